@@ -196,9 +196,12 @@ def source_text(src, style):
     kind = src['kind']
     if kind == 'all':
         return 'all'
+    name = rvalue(src['name'], style)
+    if is_atom(src['name']) and not name.startswith('{') and style.flip(style.brace_atoms):
+        name = '{' + name + '}'                      # the names in a `repeat in` list are values: braces change nothing
     if kind == 'light':
-        return rvalue(src['name'], style)
-    return kind + ' ' + rvalue(src['name'], style)
+        return name
+    return kind + ' ' + name
 
 
 def unparse_stmt(s, style, indent=0):
